@@ -90,3 +90,21 @@ theorem checkNfvs_sound (N : Net n) (p : Space n) (nfvs : List (Fin n)) (c : NCe
     cases hc : c.col u <;> rw [hc] at this <;> cases this
 
 end Balm.Impl
+
+namespace Balm.Impl
+open Balm
+
+/-- non-vacuity: the negative two-cycle `x ← ¬y, y ← x`; `{x}` is a negative feedback vertex set with the
+    trivial certificate, the empty set is rejected with every certificate of the shape below -/
+def exampleNegCycle : Net 2 := Net.ofExprs #v[.not (.var 1), .var 0]
+
+example : checkNfvs exampleNegCycle (Vector.replicate 2 none) [⟨0, by omega⟩]
+    { rank := fun _ => 0, col := fun _ => false } = true := by decide
+
+example : checkNfvs exampleNegCycle (Vector.replicate 2 none) []
+    { rank := fun _ => 0, col := fun i => i.val == 1 } = false := by decide
+
+example : checkNfvs exampleNegCycle (Vector.replicate 2 none) []
+    { rank := fun i => i.val, col := fun _ => false } = false := by decide
+
+end Balm.Impl
